@@ -120,6 +120,11 @@ def gen_case(rng: random.Random, tier: str) -> dict:
             nspec += 1
         elif kind == "repeat" and ops:
             ops.append(dict(rng.choice([o for o in ops if o["op"] in ("mm", "formula_mm", "mat_mm", "replay", "set_mm")] or [ops[0]])))
+    if nspec >= 2 and rng.random() < 0.5:
+        # (one more hand-assembled structured spec with differing policies, on a frame that has missing values if there is one)
+        a, b = rng.sample(range(nspec), 2)
+        withnull = [j for j, fr in enumerate(frames) if any(v is None for _n, c in fr["cols"] for v in c["values"])]
+        ops.append({"op": "mixed_specs", "a": a, "b": b, "d": rng.choice(withnull or list(range(len(frames)))), "na": rng.choice([["ignore", "drop"], ["drop", "ignore"], ["raise", "ignore"]])})
     if rng.random() < 0.4:  # the quoted column is capitalised / non-ASCII: spelling must not matter
         ren = rng.choice([{"b m": "B m", "b_m": "B_m"}, {"b m": "Ünit m", "b_m": "Ünit_m"}])
         for fr in frames:
@@ -398,4 +403,4 @@ PINNED = [
                  "ops": [{"op": "mm", "f": 0, "d": 0, "output": "numpy"}, {"op": "mm", "f": 0, "d": 0, "output": "numpy"}, {"op": "mm", "f": 0, "d": 0, "output": "pandas"}],
                  "hashseed": 7, "order_seed": 9}),
 ]
-SUBS = {"history": Sub(judge=judge, gen=gen_case, quick=96, thorough=6000, min_decided=40)}
+SUBS = {"history": Sub(judge=judge, gen=gen_case, quick=320, thorough=6000, min_decided=40)}
